@@ -15,6 +15,7 @@ mod rng;
 mod run;
 mod snap;
 mod world;
+mod xlsxfault;
 
 use exec::ThreadResult;
 use oracle::Violation;
@@ -103,7 +104,7 @@ struct WorkerOut {
     wall_s: f64,
     states_capped: bool,
     log_hashes: Vec<(u64, u64)>,
-    hang_or_abort: Option<String>,
+    hangs: Vec<u64>,
 }
 
 fn add_stats(m: &mut BTreeMap<String, u64>, s: &world::FaultCounters) {
@@ -183,7 +184,7 @@ fn worker(args: &[String]) -> i32 {
         }
     };
     // silence the default panic hook: panics are caught and recorded
-    std::panic::set_hook(Box::new(|_| {}));
+    world::install_panic_hook();
     let mut out = WorkerOut::default();
     let mut cases: HashSet<u64> = HashSet::new();
     let mut states: HashSet<u64> = HashSet::new();
@@ -202,8 +203,15 @@ fn worker(args: &[String]) -> i32 {
                 continue;
             }
             ThreadResult::Hung => {
-                out.hang_or_abort = Some(format!("hang run_index={index}"));
-                break;
+                // The watchdog reads the real clock (the only place anything does), and the
+                // machine is loaded: nothing is concluded here. The supervisor re-runs the
+                // index alone with a long budget. The stuck thread is left behind.
+                out.hangs.push(index);
+                if out.hangs.len() >= 3 {
+                    break;
+                }
+                index += nw;
+                continue;
             }
         };
         let o = g.outcome;
@@ -339,6 +347,9 @@ fn check(args: &[String]) -> i32 {
     for w in 0..nw {
         let c = std::process::Command::new(&exe)
             .args(["worker", &prop, &tier, &verif_seed.to_string(), &w.to_string(), &nw.to_string(), &n.to_string(), &outdir])
+            // the engine prints diagnostics of its own (importer warnings); workers report through files
+            .stdout(std::process::Stdio::null())
+            .stderr(std::process::Stdio::null())
             .spawn();
         match c {
             Ok(c) => children.push((w, c)),
@@ -391,8 +402,8 @@ fn check(args: &[String]) -> i32 {
                 total.samples.extend(o.samples);
                 total.harness_errors.extend(o.harness_errors);
                 total.states_capped |= o.states_capped;
-                if let Some(h) = o.hang_or_abort {
-                    aborts.push(h);
+                for h in o.hangs {
+                    aborts.push(format!("hang run_index={h}"));
                 }
                 read_u64s(&format!("{outdir}/w{w}.cases"), &mut cases);
                 read_u64s(&format!("{outdir}/w{w}.states"), &mut states);
@@ -436,6 +447,7 @@ fn check(args: &[String]) -> i32 {
             }
         }
     }
+    let mut slow_runs_ok = 0u64;
     for a in &aborts {
         // no event list survives an abort/hang: the replay regenerates the run from its seed
         let idx = a.split("run_index=").nth(1).and_then(|s| s.split_whitespace().next()).unwrap_or("0").to_string();
@@ -446,6 +458,31 @@ fn check(args: &[String]) -> i32 {
             &path,
             serde_json::json!({"format": 1, "regenerate": true, "property": prop, "verif_seed": verif_seed, "run_index": idx.parse::<u64>().unwrap_or(0), "what": a}).to_string(),
         );
+        // decide it on an idle machine, alone, with a budget four orders of magnitude above
+        // what a run costs
+        let st = std::process::Command::new(&exe)
+            .args(["replay", &path, "--quiet"])
+            .env("VERIF_WATCHDOG_S", "300")
+            .stdout(std::process::Stdio::null())
+            .stderr(std::process::Stdio::null())
+            .status();
+        let reproduced = match &st {
+            Ok(s) if s.code() == Some(0) => false,
+            Ok(s) if s.code() == Some(1) || s.code().is_none() => true,
+            other => {
+                eprintln!("harness error: re-run of {path} failed ({other:?})");
+                return 2;
+            }
+        };
+        if !reproduced {
+            if a.starts_with("abort") {
+                eprintln!("harness error: worker died in run {idx} ({a}) but the run completes when repeated alone");
+                return 2;
+            }
+            slow_runs_ok += 1;
+            let _ = std::fs::remove_file(&path);
+            continue;
+        }
         confirmed.push(ViolationReport {
             run_index: idx.parse().unwrap_or(0),
             replay: path.clone(),
@@ -501,6 +538,7 @@ fn check(args: &[String]) -> i32 {
                 "stub": ["network between sessions: in-process FIFO of byte batches", "byte store / xlsx disk: in-memory", "clock: mock_time", "entropy: interposed getrandom", "user: workload generator"],
             },
             "workers": nw,
+            "watchdog_trips_decided_by_rerun_alone_and_clean": slow_runs_ok,
         },
         "assumptions": [
             "sampling, not enumeration: bounds of DESIGN §2.2 (<=4 sheets, 12x8 window plus grid edges, <=40 events)",
@@ -550,7 +588,7 @@ fn replay(args: &[String]) -> i32 {
         }
     };
     exec::warm_up();
-    std::panic::set_hook(Box::new(|_| {}));
+    world::install_panic_hook();
     let js: serde_json::Value = match serde_json::from_str(&text) {
         Ok(j) => j,
         Err(e) => {
@@ -564,6 +602,22 @@ fn replay(args: &[String]) -> i32 {
         let idx = js["run_index"].as_u64().unwrap_or(0);
         match generate_run(&prop, seed, idx, false) {
             ThreadResult::Done(g) => {
+                if let Ok(out) = std::env::var("VERIF_DUMP_TRACE") {
+                    // debugging aid: the regenerated run as an ordinary replay file
+                    let rf = ReplayFile {
+                        format: 1,
+                        property: prop.clone(),
+                        tier: "quick".into(),
+                        verif_seed: seed,
+                        run_index: idx,
+                        run_seed: run_seed_of(seed, &prop, idx),
+                        config: g.init.clone(),
+                        events: g.outcome.trace.clone(),
+                        violation: g.outcome.violation.clone().unwrap_or_else(|| Violation::simple("none", 0, "?", "result", String::new())),
+                        minimised_from: g.outcome.trace.len(),
+                    };
+                    let _ = std::fs::write(&out, serde_json::to_string_pretty(&rf).unwrap_or_default());
+                }
                 if let Some(v) = g.outcome.violation {
                     println!("VIOLATION property={prop} replay={path}");
                     println!("  {}", v.detail);
@@ -703,7 +757,7 @@ fn selftest(args: &[String]) -> i32 {
 /// Debug aid: replays violation files against the current tree and says which known finding (if any) each matches.
 fn triage(args: &[String]) -> i32 {
     exec::warm_up();
-    std::panic::set_hook(Box::new(|_| {}));
+    world::install_panic_hook();
     let known = match findings::Findings::load() {
         Ok(k) => k,
         Err(e) => {
